@@ -238,8 +238,8 @@ pub fn cmd_run(args: &[String]) -> i32 {
     };
     // ---- aggregate
     let mut total = WorkerSummary::default();
-    let mut fps: BTreeSet<u64> = BTreeSet::new();
-    let mut nfps: BTreeSet<u64> = BTreeSet::new();
+    let mut distinct_sum: u64 = 0;
+    let mut nfps_all: Vec<u64> = Vec::new();
     let mut by_mode: BTreeMap<String, (u64, u64, u64)> = BTreeMap::new();
     let mut fail_files: Vec<String> = Vec::new();
     let mut samples = Vec::new();
@@ -270,8 +270,13 @@ pub fn cmd_run(args: &[String]) -> i32 {
         merge(&mut total.inconclusive_reasons, &s.inconclusive_reasons);
         merge(&mut total.extra, &s.extra);
         merge_max(&mut meter_max, &s.meter_max);
-        fps.extend(s.fingerprints.iter().copied());
-        nfps.extend(s.nontrivial_fingerprints.iter().copied());
+        distinct_sum += s.distinct_fingerprints;
+        if let Ok(bytes) = std::fs::read(&s.fingerprint_file) {
+            for ch in bytes.chunks_exact(8) {
+                nfps_all.push(u64::from_le_bytes(ch.try_into().unwrap()));
+            }
+        }
+        let _ = std::fs::remove_file(&s.fingerprint_file);
         let e = by_mode.entry(s.mode.clone()).or_insert((0, 0, 0));
         e.0 += s.executions;
         e.1 += s.nontrivial;
@@ -282,6 +287,9 @@ pub fn cmd_run(args: &[String]) -> i32 {
         }
         wall_workers = wall_workers.max(s.wall_s);
     }
+    nfps_all.sort_unstable();
+    nfps_all.dedup();
+    let nfps = nfps_all;
     // ---- failures: minimise, verify in a fresh process, match against known findings
     let known = load_known();
     let mut violations: Vec<(ReplayFile, String)> = Vec::new();
@@ -376,7 +384,7 @@ pub fn cmd_run(args: &[String]) -> i32 {
             "distinct_nontrivial": nfps.len(),
             "rule": rule_of(&prop),
             "samples": samples,
-            "distinct_executions": fps.len(),
+            "distinct_executions_summed_over_workers": distinct_sum,
             "nontrivial_executions": total.nontrivial,
             "inconclusive_executions": total.inconclusive,
             "inconclusive_reasons": total.inconclusive_reasons,
@@ -511,6 +519,8 @@ pub fn cmd_selftest(args: &[String]) -> i32 {
         for f in s.failures.iter().chain(s2.failures.iter()) {
             let _ = std::fs::remove_file(f);
         }
+        let _ = std::fs::remove_file(&s.fingerprint_file);
+        let _ = std::fs::remove_file(&s2.fingerprint_file);
     }
     if ok {
         println!(
